@@ -479,16 +479,27 @@ class EdgeQLSourceGenerator(codegen.SourceGenerator):
         if op.isalnum():
             self.write(')')
 
+    def _visit_left_operand(self, node: qlast.Expr) -> None:
+        # Prefix operators bind looser than most infix ones
+        # (`-a ^ 2` is `-(a ^ 2)`), so a prefix operation in the
+        # left operand position must keep its own parentheses.
+        if isinstance(node, qlast.UnaryOp):
+            self.write('(')
+            self.visit(node)
+            self.write(')')
+        else:
+            self.visit(node)
+
     def visit_BinOp(self, node: qlast.BinOp) -> None:
         self.write('(')
-        self.visit(node.left)
+        self._visit_left_operand(node.left)
         self.write(' ' + str(node.op).upper() + ' ')
         self.visit(node.right)
         self.write(')')
 
     def visit_IsOp(self, node: qlast.IsOp) -> None:
         self.write('(')
-        self.visit(node.left)
+        self._visit_left_operand(node.left)
         self.write(' ' + str(node.op).upper() + ' ')
         self.visit(node.right)
         self.write(')')
